@@ -63,6 +63,54 @@ def recursion_guard(rep: Report, prog: Program, resolver: Resolver) -> None:
             rep.fail("R07.4", "_find_path_recursive:mutable-default", "visited has a mutable default: shared across queries", fi.where())
 
 
+def _sccs(g: Dict[str, Set[str]]) -> List[List[str]]:
+    """Strongly connected components with a cycle (size > 1, or a self loop); iterative Tarjan."""
+    index: Dict[str, int] = {}
+    low: Dict[str, int] = {}
+    on: Set[str] = set()
+    stack: List[str] = []
+    out: List[List[str]] = []
+    counter = [0]
+    for root in sorted(g):
+        if root in index:
+            continue
+        work = [(root, iter(sorted(g[root])))]
+        index[root] = low[root] = counter[0]
+        counter[0] += 1
+        stack.append(root)
+        on.add(root)
+        while work:
+            v, it = work[-1]
+            advanced = False
+            for w in it:
+                if w not in index:
+                    index[w] = low[w] = counter[0]
+                    counter[0] += 1
+                    stack.append(w)
+                    on.add(w)
+                    work.append((w, iter(sorted(g[w]))))
+                    advanced = True
+                    break
+                elif w in on:
+                    low[v] = min(low[v], index[w])
+            if advanced:
+                continue
+            work.pop()
+            if work:
+                low[work[-1][0]] = min(low[work[-1][0]], low[v])
+            if low[v] == index[v]:
+                comp = []
+                while True:
+                    w = stack.pop()
+                    on.discard(w)
+                    comp.append(w)
+                    if w == v:
+                        break
+                if len(comp) > 1 or v in g[v]:
+                    out.append(comp)
+    return out
+
+
 def run(rep: Report) -> None:
     prog = Program()
     resolver = Resolver(prog)
@@ -74,6 +122,8 @@ def run(rep: Report) -> None:
     rep.rule("R07.2i", "inventory: raises of builtin classes in algebra/formatting code reachable from the entries", armed=False)
     rep.rule("R07.3", "the handlers in Quantity.__eq__/__lt__ catch exactly ConversionNotFound and return NotImplemented", floor=2)
     rep.rule("R07.4", "_find_path_recursive is guarded by a per-query visited set (test, add, pass on)", floor=2)
+    rep.rule("R07.6", "every cycle of the reachable call graph contains a function whose recursion is bounded for a stated reason (visited set, "
+             "one-step conversion, caught formatting error): no unbounded mutual recursion between operators", floor=3)
     rep.rule("R07.5", "planner zone: no reduce() without initialiser over a possibly empty sequence; no true division by "
              "something derived from the converted magnitude; no type errors reported by mypy", floor=3)
     rep.rule("R07.5i", "inventory: partial operations in the reachable set (subscripts, pop, remove, reduce, division)", armed=False)
@@ -152,6 +202,27 @@ def run(rep: Report) -> None:
     nodes = {e.a.uid for e in ev.edges} | {e.b.uid for e in ev.edges}
     rep.check("R07.4", "declared-graph-size", len(nodes) + 100 < 1000,
               f"the declared equivalence graph has {len(nodes)} nodes: a simple path may exceed the default recursion limit", "")
+    # R07.6: recursion
+    graph: Dict[str, Set[str]] = {f: set() for f in reach.reached}
+    for f in reach.reached:
+        for cs in reach.sites.get(f, []):
+            for t in cs.targets:
+                if t in graph:
+                    graph[f].add(t)
+    anchors = {
+        "conversions._find_path_recursive": "per-query visited set (R07.4)",
+        "Quantity.__eq__": "recurses once, on the operand converted into the other's unit (same unit: magnitudes are compared)",
+        "Quantity.__lt__": "recurses once, on the operand converted into the other's unit (same unit: magnitudes are compared)",
+        "formatting.unit_str": "error-message formatting; Prefix.root's FractionalDimensionError is caught by the formatter",
+    }
+    for comp in _sccs(graph):
+        names = sorted(comp)
+        why = [anchors[a] for a in names if a in anchors]
+        key = "cycle:" + "+".join(n_.split(".")[-1] if len(names) > 3 else n_ for n_ in names[:4])
+        rep.check("R07.6", key, bool(why),
+                  f"{names[:5]} call each other (directly or through operator dispatch) with no bound this analysis knows: when neither direction "
+                  "makes progress the recursion ends in RecursionError, not ConversionNotFound", prog.functions[names[0]].where(),
+                  note=why[0] if why else None)
     # R07.5
     n_reduce = n_div = 0
     for f in sorted(reach.reached):
@@ -232,6 +303,47 @@ def run(rep: Report) -> None:
             rep.check("R07.5", f"{f}:{ast.unparse(site)[:40]}", guarded,
                       f"`{ast.unparse(site)[:50]}` takes an element of a filtered sequence that can be empty, with no emptiness test before it: "
                       f"{exc} escapes from converting/comparing instead of ConversionNotFound", fi.where(site))
+    # a dict entry read in a loop that may delete it
+    for f in sorted(reach.reached):
+        fi = prog.functions[f]
+        if not planner_zone(prog, f):
+            continue
+        for lp in ast.walk(fi.node):
+            if not isinstance(lp, (ast.For, ast.While)):
+                continue
+            deleted: Set[Tuple[str, str]] = set()
+            for c in ast.walk(lp):
+                if isinstance(c, ast.Call) and isinstance(c.func, ast.Name) and c.func.id in ("_clean_remove", "_clean_pop") and len(c.args) >= 2:
+                    deleted.add((ast.unparse(c.args[0]), ast.unparse(c.args[1])))
+                elif isinstance(c, ast.Call) and isinstance(c.func, ast.Attribute) and c.func.attr == "pop" and c.args and isinstance(c.func.value, ast.Name):
+                    deleted.add((c.func.value.id, ast.unparse(c.args[0])))
+                elif isinstance(c, ast.Delete):
+                    for t in c.targets:
+                        if isinstance(t, ast.Subscript):
+                            deleted.add((ast.unparse(t.value), ast.unparse(t.slice)))
+            # a key that the loop itself rebinds on every iteration names a different entry each time
+            own = {x.id for x in ast.walk(lp.target) if isinstance(x, ast.Name)} if isinstance(lp, ast.For) else set()
+            deleted = {(d_, k_) for d_, k_ in deleted if k_ not in own}
+            if not deleted:
+                continue
+            body_nodes = [x for b in lp.body for x in ast.walk(b)] + (list(ast.walk(lp.test)) if isinstance(lp, ast.While) else [])
+            for x in body_nodes:
+                if isinstance(x, ast.Subscript) and isinstance(x.ctx, ast.Load) and (ast.unparse(x.value), ast.unparse(x.slice)) in deleted:
+                    d, k = ast.unparse(x.value), ast.unparse(x.slice)
+                    # a membership test of the same key inside the loop (its condition, or an enclosing `if` in the body) re-establishes it
+                    tests = [ast.unparse(lp.test)] if isinstance(lp, ast.While) else []
+                    p = getattr(x, "_parent", None)
+                    while p is not None and p is not lp:
+                        if isinstance(p, (ast.If, ast.IfExp)):
+                            tests.append(ast.unparse(p.test))
+                        if isinstance(p, ast.Try) and any(h.type is not None and "KeyError" in ast.unparse(h.type) for h in p.handlers):
+                            tests.append(f"{k} in {d}")
+                        p = getattr(p, "_parent", None)
+                    okk = any(f"{k} in {d}" in t for t in tests)
+                    rep.check("R07.5", f"{f}:{ast.unparse(x)[:40]}@loop", okk,
+                              f"`{ast.unparse(x)[:50]}` is read on every iteration of a loop that can remove the entry {d}[{k}] (it is dropped when its "
+                              "list empties), and the only membership test is outside the loop: KeyError escapes from converting/comparing",
+                              fi.where(x))
     # mypy diagnostics in the planner zone
     zone_files = {"conversions.py"}
     errs = [e for e in getattr(prog, "mypy_errors", []) if any(f"/{z}:" in e or e.startswith(f"src/measured/{z}:") for z in zone_files)]
